@@ -959,6 +959,7 @@ func main() {
 	// ---- L10 the node's own head height; L11 block helpers keep their arguments, roles, re-execution ----
 	headHeightSearch(a, rng, res)
 	roleSearch(a, rng, res)
+	nodeRoleSearch(a, rng, res)
 
 	// ---- L8 blocks executing concurrently in one process ----
 	concurrencySearch(a, rng, res)
